@@ -25,6 +25,8 @@ Fixpoint lex_leb (a b : list N) : bool :=
   | x :: a', y :: b' => if x <? y then true else if y <? x then false else lex_leb a' b'
   end.
 Definition lex_le (a b : list N) : Prop := lex_leb a b = true.
+(* a byte string: every element is a u8 *)
+Definition str_ok (s : list N) : Prop := Forall (fun b => b < 256) s.
 
 Section Generic.
   Variable T : Type.
